@@ -57,4 +57,32 @@ out["reader: chunk is read from chunk_start_offset + 9 (after the opcode and len
 att_seek = [s for s in seeks if ".offset" in s and "chunk" not in s]
 ok = len(att_seek) >= 2 and all(("+" not in s and "-" not in s) for s in att_seek)
 out["reader: attachment/metadata records are read from index.offset (the opcode byte, as the writers record it)"] = {"ok": ok, "where": "python/mcap/mcap/reader.py", "detail": "; ".join(att_seek) or "no seek on an index offset found"}
+# ---- stream reader dispatch: every opcode is routed to the read() of the record class of the same name
+sr = ast.parse(open(os.path.join(base, "stream_reader.py")).read())
+sf = funcs(sr)
+disp = {}
+fn = sf.get("_read_record")
+if fn is not None:
+    for n in ast.walk(fn):
+        if isinstance(n, ast.If) and isinstance(n.test, ast.Compare) and len(n.test.comparators) == 1:
+            c = n.test.comparators[0]
+            if isinstance(c, ast.Attribute) and isinstance(c.value, ast.Name) and c.value.id == "Opcode":
+                for st in n.body:
+                    if isinstance(st, ast.Return) and isinstance(st.value, ast.Call) and isinstance(st.value.func, ast.Attribute) and st.value.func.attr == "read":
+                        disp[c.attr] = src(st.value.func.value)
+opc = []
+for n in ast.walk(ast.parse(open(os.path.join(base, "opcode.py")).read())):
+    if isinstance(n, ast.ClassDef):
+        opc = [s.targets[0].id for s in n.body if isinstance(s, ast.Assign)]
+def camel(name): return "".join(w.capitalize() for w in name.split("_"))
+wrong = [f"{k}->{v}" for k, v in disp.items() if camel(k) != v]
+missing = [k for k in opc if k not in disp]
+out["stream reader: every opcode dispatches to the record class of the same name"] = {
+    "ok": fn is not None and not wrong and not missing and len(disp) >= 15, "where": "python/mcap/mcap/stream_reader.py:_read_record",
+    "detail": f"{len(disp)} opcodes dispatched; wrong: {wrong}; missing: {missing}"}
+skips_unknown = fn is not None and any(isinstance(st, ast.Expr) and "read(length)" in src(st) for st in fn.body)
+rec = sf.get("records")
+pads = rec is not None and "padding" in src(rec) and "read(padding)" in src(rec)
+out["stream reader: unknown records and trailing record padding are skipped by length"] = {
+    "ok": bool(skips_unknown and pads), "where": "python/mcap/mcap/stream_reader.py", "detail": f"unknown skipped: {skips_unknown}; padding skipped: {pads}"}
 json.dump(out, sys.stdout, indent=1)
